@@ -56,6 +56,38 @@ const EPS: f64 = 1e-9;
 const EPS2: f64 = 0.006;
 
 pub fn check(c: &Case, obs: &mut Obs) -> Result<Option<Frame>, Fail> {
+    check_via(c, false, obs)
+}
+
+/// The SVG of the case through the JS/WASM export `qr_svg` (host-compiled through the guarded hook): the third
+/// documented way to give the placement options. Its `image_size(size, gap)` sets both values at once.
+fn wasm_svg(c: &Case) -> Result<String, Fail> {
+    use fast_qr::verif_wasm_host as wasm;
+    let cfg = c.cfg.clone();
+    let v = c.version;
+    catch(move || {
+        let mut o = wasm::SvgOptions::new().ecl(crate::fq::f_level(Level::L)).version(crate::fq::f_version(v));
+        if let Some(m) = cfg.margin {
+            o = o.margin(m);
+        }
+        if let Some(i) = &cfg.image {
+            o = o.image(i.clone());
+        }
+        if let Some(s) = cfg.image_bg_shape {
+            o = o.image_background_shape(BG_SHAPES[s]);
+        }
+        if let (Some(s), Some(g)) = (cfg.image_size, cfg.image_gap) {
+            o = o.image_size(s, g);
+        }
+        if let Some((x, y)) = cfg.image_position {
+            o = o.image_position(vec![x, y]);
+        }
+        wasm::qr_svg("C18", o)
+    })
+    .map_err(|p| Fail { sig: panic_sig(&p), msg: format!("wasm qr_svg panicked: {} ({})", p, to_json(c)) })
+}
+
+pub fn check_via(c: &Case, via_wasm: bool, obs: &mut Obs) -> Result<Option<Frame>, Fail> {
     let v = c.version;
     let bc = BuildCase::new(b"C18".to_vec(), Opts { mode: None, level: Some(Level::L), version: Some(v), mask: Some(0) });
     let built = match do_build(&bc)? {
@@ -65,9 +97,18 @@ pub fn check(c: &Case, obs: &mut Obs) -> Result<Option<Frame>, Fail> {
     let n = built.size();
     let m = c.cfg.margin_eff();
     let s_total = (n + 2 * m) as f64;
-    let svg = catch(|| c.cfg.svg_string(&built.qr))
-    .map_err(|p| Fail { sig: panic_sig(&p), msg: format!("SvgBuilder panicked: {} ({})", p, to_json(c)) })?;
-    let f = frame_of(&svg)?;
+    let svg = if via_wasm {
+        obs.label("entry:wasm_qr_svg");
+        wasm_svg(c)?
+    } else {
+        catch(|| c.cfg.svg_string(&built.qr)).map_err(|p| Fail { sig: panic_sig(&p), msg: format!("SvgBuilder panicked: {} ({})", p, to_json(c)) })?
+    };
+    let f = frame_of(&svg).map_err(|mut f| {
+        if via_wasm {
+            f.sig = format!("wasm:{}", f.sig);
+        }
+        f
+    })?;
     let cfg = &c.cfg;
     ensure!((f.w - f.h).abs() <= EPS, "frame_not_square", "frame is {} x {} ({})", f.w, f.h, to_json(c));
     ensure!((f.iw - f.ih).abs() <= EPS, "image_not_square", "image is {} x {} ({})", f.iw, f.ih, to_json(c));
@@ -260,6 +301,9 @@ pub fn replay(_e: &Engine, case: &Value, obs: &mut Obs) -> Result<(), Fail> {
     if case.get("raster").and_then(|x| x.as_bool()) == Some(true) {
         return check_raster(&c, obs);
     }
+    if case.get("wasm").and_then(|x| x.as_bool()) == Some(true) {
+        return check_via(&c, true, obs).map(|_| ());
+    }
     check(&c, obs).map(|_| ())
 }
 
@@ -328,6 +372,24 @@ pub fn run(e: &'static Engine) {
             jc.run_prop(1 << 20, &strat, total / shards, to_json, |c, o| {
                 o.label("part:generated_overrides");
                 check(c, o).map(|_| ())
+            });
+            // the same overrides given through the JS/WASM export (size and gap come as a pair there)
+            let strat = (prop_oneof![3 => 1usize..=10, 1 => 1usize..=40], prop_oneof![Just(None), (0usize..=16).prop_map(Some)], prop_oneof![Just(None), (0usize..3).prop_map(Some)], any::<[bool; 2]>())
+                .prop_flat_map(|(v, margin, shape, present)| {
+                    let n = size(v) as f64;
+                    let s_total = n + 2.0 * margin.unwrap_or(4) as f64;
+                    (
+                        if present[0] { (real(1.0, 0.6 * n), real(0.0, 6.0)).prop_map(Some).boxed() } else { Just(None).boxed() },
+                        if present[1] { (real(0.0, s_total), real(0.0, s_total)).prop_map(Some).boxed() } else { Just(None).boxed() },
+                    )
+                        .prop_map(move |(sg, pos)| Case {
+                            version: v,
+                            cfg: SvgCfg { margin, image: Some("logo.png".into()), image_bg_shape: shape, image_size: sg.map(|x| x.0), image_gap: sg.map(|x| x.1), image_position: pos, ..SvgCfg::default() },
+                        })
+                });
+            jc.run_prop(5 << 20, &strat, total / shards / 4, |c| { let mut j = to_json(c); j["wasm"] = json!(true); j }, |c, o| {
+                o.label("part:overrides_through_wasm");
+                check_via(c, true, o).map(|_| ())
             });
         }));
     }
